@@ -16,18 +16,20 @@ Act(ev) ==
     [] ev.op = "set"   -> Set(ev.a, ev.r, ev.k, ev.via)
     [] ev.op = "bind"  -> Bind(ev.k)
     [] ev.op = "setm"  -> SetM(ev.r, ev.k, ev.via)
+    [] ev.op = "setm2" -> SetM2(ev.r, ev.k, ev.via, ev.ord)
     [] ev.op = "call"  -> Call(ev.k)
     [] ev.op = "spend" -> Spend(ev.a, ev.k, ev.via)
     [] ev.op = "mine"  -> Mine
 
 (* which deviation an admitted step needed: the IDEAL admission fails and the named one explains it *)
+DevAcc(ev, a, uri) ==
+  IF Authorised(FALSE, a, uri) THEN {}
+  ELSE (IF conf[a] = 0 /\ KF_UnconfirmedAccountOpen /\ ev.op # "spend" THEN {"KF_UnconfirmedAccountOpen"} ELSE {})
+       \cup (IF conf[a] # 0 /\ KF_IntermediateAKCounts /\ Authorised(TRUE, a, uri) THEN {"KF_IntermediateAKCounts"} ELSE {})
 DevOf(ev) ==
-  IF ev.op \notin {"set", "setm", "spend"} \/ ev.res # "accept" THEN {}
-  ELSE LET a == IF ev.op = "setm" THEN Owner ELSE ev.a
-           uri == Uri(a, ev.k, ev.via) IN
-       IF Authorised(FALSE, a, uri) THEN {}
-       ELSE (IF conf[a] = 0 /\ KF_UnconfirmedAccountOpen /\ ev.op # "spend" THEN {"KF_UnconfirmedAccountOpen"} ELSE {})
-            \cup (IF conf[a] # 0 /\ KF_IntermediateAKCounts /\ Authorised(TRUE, a, uri) THEN {"KF_IntermediateAKCounts"} ELSE {})
+  IF ev.op \notin {"set", "setm", "setm2", "spend"} \/ ev.res # "accept" THEN {}
+  ELSE IF ev.op = "setm2" THEN DevAcc(ev, "A1", Uri(Owner, ev.k, ev.via)) \cup DevAcc(ev, "A2", Uri(Owner, ev.k, ev.via))
+  ELSE LET a == IF ev.op = "setm" THEN Owner ELSE ev.a IN DevAcc(ev, a, Uri(a, ev.k, ev.via))
 
 TStep ==
   /\ l <= Len(Trace) /\ div = NoDiv
